@@ -110,7 +110,9 @@ class C17(object):
     required_counters = ('fresh_vs_history.compared', 'series.compared', 'reparse.judged', 'logging.on', 'trace.on',
                          'resolve.on', 'steady_state_option.on', 'history.exclusion_list_of_another_solver_edited_in_place',
                          'reparse.second_block_without_run_parameter_lines',
-                         'reparse.second_block_is_scenario_with_same_names_and_horizon')
+                         'reparse.second_block_is_scenario_with_same_names_and_horizon',
+                         'reparse.warning_raised_as_error',
+                         'reparse.fallback_after_failed_search')
 
     def n_cases(self, tier):
         return 32 if tier == 'quick' else 1200
@@ -141,7 +143,24 @@ class C17(object):
                 b_text = '\n'.join(l for l in G.render(b).split('\n')
                                    if not l.replace(' ', '').startswith(('MaxTime=', 'Err_Tolerance=')))
                 omits = True
+            mode = None
+            if idx % 16 in (11, 15):
+                # an unrelated second block (own names, own horizon)
+                b = G.gen_affine(rng, rho=0.5, tol=1e-9, maxtime=rng.randint(1, 6))
+                b_text = G.render(b)
+                omits = same_names = False
+            if idx % 16 == 11:
+                # warnings are errors in this process: the parse report about an ignored line is RAISED; the caller catches
+                # it and solves anyway
+                x0 = b['simul'][0]['name']
+                b_text = 'zz_bad = %s(k-1) + 1\n' % x0 + b_text
+                mode = 'warning_raised_as_error'
+            elif idx % 16 == 15:
+                # the steady-state search fails (a drifting variable); the caller switches the option off and solves again
+                b_text = 'zz_drift = zz_drift_l + 1.0\nzz_drift_l = zz_drift(k-1)\n' + b_text
+                mode = 'fallback_after_failed_search'
             return {'kind': 'reparse', 'A': G.render(a), 'B': b_text, 'B_omits_run_parameters': omits, 'B_is_scenario_of_A': same_names,
+                    'mode': mode,
                     'B_names': sorted(set(G.all_value_names(b) + [d['name'] for d in b['decos']] + ['k', 't'])),
                     'reduction': rng.random() < 0.5, 'solve_A': rng.random() < 0.8}
         if idx % 8 not in (1, 5) and rng.random() < 0.5:
@@ -308,7 +327,82 @@ class C17(object):
                 'violations': rec.violations,
                 'obs': {'n_series': len(ref), 'history': [o['op'] for o in case['history']], 'settings': case['settings']}}
 
+    def run_reparse_mode(self, case, rec):
+        """Error paths on a re-used solver: what it computes after the caller caught an exception equals what a fresh
+        solver computes when treated the same way."""
+        import warnings
+        from sfc_models.equation_solver import EquationSolver
+        mode = case['mode']
+
+        def job(s):
+            if mode == 'warning_raised_as_error':
+                with warnings.catch_warnings():
+                    warnings.simplefilter('error')
+                    try:
+                        s.ParseString(case['B'])
+                    except Warning:
+                        pass
+                s.SolveEquation()
+            else:
+                s.ParseString(case['B'])
+                s.ParameterSolveInitialSteadyState = True
+                s.ParameterInitialSteadyStateMaxTime = 20
+                try:
+                    s.SolveEquation()
+                    return 'search_succeeded'
+                except ValueError:
+                    pass
+                s.ParameterSolveInitialSteadyState = False
+                s.SolveEquation()
+            return 'ok'
+        with contextlib.redirect_stdout(io.StringIO()):
+            fresh_b = EquationSolver(run_equation_reduction=case['reduction'])
+            fresh_b.MaxIterations = 4000
+            plain = EquationSolver(run_equation_reduction=case['reduction'])
+            plain.MaxIterations = 4000
+            try:
+                o1 = job(fresh_b)
+                with warnings.catch_warnings():
+                    warnings.simplefilter('ignore')
+                    plain.ParseString(case['B'])
+                plain.SolveEquation()
+            except Exception as e:
+                return {'verdict': 'notjudged', 'shape': 'reparse|' + mode + '|fresh_failed:' + type(e).__name__}
+            if o1 != 'ok':
+                return {'verdict': 'notjudged', 'shape': 'reparse|' + mode + '|' + o1}
+            s = EquationSolver(run_equation_reduction=case['reduction'])
+            s.MaxIterations = 4000
+            try:
+                s.ParseString(case['A'])
+                if case['solve_A']:
+                    s.SolveEquation()
+            except ValueError:
+                pass
+            try:
+                job(s)
+            except Exception as e:
+                rec.violate('reparsed_solver_fails', {'err': repr(e)[:300], 'mode': mode, 'B': case['B']})
+                return {'verdict': 'violated', 'shape': 'reparse|' + mode, 'counters': rec.counters, 'violations': rec.violations}
+        rec.count('reparse.judged')
+        rec.count('reparse.' + mode)
+        ref = series_repr(plain.TimeSeries)
+        for name, ser in (('fresh solver treated the same way', fresh_b), ('re-used solver', s)):
+            got = series_repr(ser.TimeSeries)
+            if sorted(got) != sorted(ref):
+                rec.violate('remnants_of_previous_block', {'who': name, 'mode': mode, 'extra': sorted(set(got) - set(ref))[:8],
+                                                           'missing': sorted(set(ref) - set(got))[:8]})
+                break
+            if got != ref:
+                bad = [n for n in ref if ref[n] != got[n]][:5]
+                rec.violate('reparsed_values_differ_from_fresh_solver', {'who': name, 'mode': mode, 'vars': bad,
+                                                                         'plain': {n: ref[n][:4] for n in bad}, 'got': {n: got[n][:4] for n in bad}})
+                break
+        return {'verdict': 'violated' if rec.violations else 'held', 'nontrivial': True, 'shape': 'reparse|' + mode,
+                'counters': rec.counters, 'violations': rec.violations, 'obs': {'mode': mode}}
+
     def run_reparse(self, case, rec):
+        if case.get('mode'):
+            return self.run_reparse_mode(case, rec)
         from sfc_models.equation_solver import EquationSolver
         with contextlib.redirect_stdout(io.StringIO()):
             fresh_b = EquationSolver(run_equation_reduction=case['reduction'])
